@@ -103,6 +103,43 @@ func runC09(c *Ctx) {
 			c.R.Count("runs_after_refused_connects", 1)
 		}
 
+		// a quarter of the runs share the process with a second client that is sending too (a bouncer, a bot on several
+		// networks): its traffic must leave this client's alone, and the other way round
+		var other *Session
+		var otherMC *rig.MemConn
+		otherStop := make(chan struct{})
+		otherDone := make(chan struct{})
+		var otherN int64
+		if idx%4 == 2 {
+			other = NewSession(SessionOpts{Flood: true})
+			omc, oerr := other.Connect()
+			if oerr != nil || !AwaitRegistration(omc) {
+				c.R.Inconcl("connect of the second client failed")
+				return
+			}
+			omc.Take()
+			otherMC = omc
+			go func() {
+				defer close(otherDone)
+				rr := rig.Rand(c.Seed, "C09other", idx)
+				for k := 0; ; k++ {
+					select {
+					case <-otherStop:
+						return
+					default:
+					}
+					other.Conn.Raw(fmt.Sprintf("OTHER %d %s", k, strings.Repeat("o", rr.Intn(300))))
+					atomic.AddInt64(&otherN, 1)
+					if k > 20000 {
+						return
+					}
+				}
+			}()
+			c.R.Count("runs_next_to_a_second_sending_client", 1)
+		} else {
+			close(otherDone)
+		}
+
 		var mu sync.Mutex
 		issued := map[string]string{}    // "sender counter" -> payload
 		apiIssued := map[string]string{} // exact wire line of a call made through a command method -> "sender counter"
@@ -263,6 +300,30 @@ func runC09(c *Ctx) {
 			}
 			c.R.Inconcl(fmt.Sprintf("%s: final separator not seen", Case("run", idx)))
 			return
+		}
+		close(otherStop)
+		if other != nil {
+			if !waitCh(otherDone) {
+				c.R.Inconcl(fmt.Sprintf("%s: the second client's sender did not stop", Case("run", idx)))
+				return
+			}
+			other.Conn.Raw("VSYNC other")
+			if !otherMC.WaitLines(WaitLong, func(lines []string) bool { return len(lines) > 0 && lines[len(lines)-1] == "VSYNC other" }) {
+				c.R.Violate(rig.Violation{Sig: "c09|second-client-lines-lost", Detail: "the second client of the process never got its last line onto its own wire", Case: Case("run", idx)})
+			} else {
+				ol, _ := otherMC.Take()
+				want := 0
+				for _, l := range ol[:len(ol)-1] {
+					var k int
+					if n, _ := fmt.Sscanf(l, "OTHER %d", &k); n != 1 || k != want || strings.Trim(strings.TrimPrefix(l, fmt.Sprintf("OTHER %d ", k)), "o") != "" {
+						c.R.Violate(rig.Violation{Sig: "c09|second-client-foreign-line", Detail: fmt.Sprintf("the second client of the process sent OTHER 0..%d; its server received %q at position %d", atomic.LoadInt64(&otherN)-1, clipS(l), want), Case: Case("run", idx)})
+						break
+					}
+					want++
+				}
+			}
+			go other.Conn.Close()
+			other.Release()
 		}
 		lines, _ := mc.Take()
 		lines = lines[:len(lines)-1]
